@@ -135,7 +135,10 @@ class CtlQueue:
             else:
                 g = {"kind": "out", "batch": c.ghost["batch"] if c else 0, "best": _scaled(x[1])}
                 if c:
-                    c.log({"e": "out", "batch": g["batch"], "best": g["best"]})
+                    ev = {"e": "out", "batch": g["batch"], "best": g["best"]}
+                    if "bmin" in c.ghost:
+                        ev["bmin"] = c.ghost["bmin"]          # (the minimum of the losses of the batch being scored)
+                    c.log(ev)
         self.items.append((x, g))
 
     def get(self, block=True, timeout=None):
